@@ -5,9 +5,14 @@ import AslModel.Model.Cond
 request : `<stride> <crash01> <deadwarn01> <obs|-> stmt*`
   * `stride`, `crash01`, `deadwarn01` – the calibrated `Cfg` (CodeIFB index advance, lone ELSECASE crashes,
     ENDCASE warns for a skipped SWITCH)
-  * `obs` = `<markers hex|->;<err numbers comma separated|->;<status>` – what the real `asl` did on
-    this case (`status` = exit code, `sig` when killed by a signal), or `-` for "predict only"
-  * statements: `L<m>` leaf · `I<argc>:<cond>` with cond `e<0|1>`, `d|u|x<neg><raw>`, `b<neg><flags>` ·
+  * `obs` = `<code hex|->;<err numbers comma separated|->;<status>[;<symbols|->]` – what the real `asl` did on
+    this case (`status` = exit code, `sig` when killed by a signal), or `-` for "predict only";
+    `symbols` = comma separated `d<id>=<value>/<b0>/<b1>` (the probe after the construct found symbol `id` defined
+    with `value`; `b0`,`b1` = the code bytes at `value`, `value+1`, `x` where there is none) and `u<id>` (IFUSED
+    found it referenced), `?<id>` (the probe emitted nothing at all – counted as the unknown symbol `100000+id`)
+  * statements: `L<m>` leaf, `L<m>:<k><sym>` leaf about symbol `sym` with `k` = `i` label+instruction, `p` label+pseudo-op,
+    `m` label+macro call, `n`/`g`/`k` label+call of an INTLABEL macro (label unused / placed by the body with
+    GLOBALSYMBOLS / placed locally), `s` label+structure instantiation, `e` EQU, `t` SET, `u` reference · `I<argc>:<cond>` with cond `e<0|1>`, `d|u|x<neg><raw>`, `b<neg><flags>` ·
     `EI<argc>:<0|1>` ELSEIF/ELSE · `EN<argc>` ENDIF · `S<argc>:<val>` · `C:<val>,…` · `EC<argc>` · `ED<argc>`
     with val `i<int>`, `f<int>`, `s<hex|->`
 answer  : `wn=<0|1> skel=<0|1> mout=<hex> merrs=<list> mcrash=<0|1> mstack=<n>` and, with obs,
@@ -15,7 +20,10 @@ answer  : `wn=<0|1> skel=<0|1> mout=<hex> merrs=<list> mcrash=<0|1> mstack=<n>` 
   * wn    – SPEC: the statement list is well nested (`WellNested`)
   * skel  – it is the flattening of a skeleton (`flatB (parse ss) = ss`), so `sel`/`warn` apply
   * model – observed markers / error numbers / crash = MODEL (`run` + `endPass`) under the calibrated Cfg
-  * spec  – SPEC on the observation: skeleton ⇒ markers = `selB`, no error, warnings = `warnB`, exit 0;
+  * spec  – SPEC on the observation: skeleton ⇒ code = `codeOf (selB b)`, no error, warnings = `warnB`, exit 0,
+            the set of symbols found defined = `definedBy (selB b)` (why=symbols), each with the value its selected
+            defining leaf gives it (label → address of the leaf's own code, EQU/SET → the operand; why=label-value),
+            the set of symbols found referenced = `usedBy (selB b)` (why=used);
             not well nested ⇒ at least one error (number ≥ 1000) reported and no crash
   * armless – number of SWITCH constructs without any CASE/ELSECASE in the skeleton (signature help)
   * alt   – observed markers = `selB` with every IFB judged by the pinned tree's stride-2 loop (signature help);
@@ -48,10 +56,21 @@ def splitColon (s : String) : String × String :=
   | a :: rest => (a, ":".intercalate rest)
   | [] => ("", "")
 
+def parseKind : Char → Option LeafKind
+  | 'i' => some .instr | 'p' => some .pseudo | 'm' => some .macro | 'n' => some .macroInt
+  | 'g' => some .macroIntGlobal | 'k' => some .macroIntLocal | 's' => some .struct
+  | 'e' => some .equ | 't' => some .set | 'u' => some .use | _ => none
+
+def parseLeaf (m : String) (t : String) : Option Leaf := do
+  let m ← m.toNat?
+  match t.toList with
+  | [] => pure { marker := m }
+  | k :: r => do let k ← parseKind k; let sy ← (String.ofList r).toNat?; pure { marker := m, kind := k, sym := sy }
+
 def parseStmt (s : String) : Option Stmt :=
   let (h, t) := splitColon s
   match h.toList with
-  | 'L' :: r => (String.ofList r).toNat?.map Stmt.leaf
+  | 'L' :: r => (parseLeaf (String.ofList r) t).map Stmt.leaf
   | 'I' :: r => do let a ← (String.ofList r).toNat?; let c ← parseCond t; pure (.iff a c)
   | 'E' :: 'I' :: r => do let a ← (String.ofList r).toNat?; let c ← (match t.toList with | [c] => bit c | _ => none); pure (.elseif a c)
   | 'E' :: 'N' :: r => (String.ofList r).toNat?.map Stmt.endif
@@ -136,6 +155,48 @@ def showNats (l : List Nat) : String := if l.isEmpty then "-" else ",".intercala
 
 def hexNats (l : List Nat) : String := hex (l.map (fun n => UInt8.ofNat (n % 256)))
 
+/-- sorted list without duplicates -/
+def insertSet (x : Nat) : List Nat → List Nat
+  | [] => [x]
+  | y :: r => if x < y then x :: y :: r else if x = y then y :: r else y :: insertSet x r
+
+def toSet (l : List Nat) : List Nat := l.foldr insertSet []
+
+/-- an observed symbol: `d<id>=<value>/<b0>/<b1>` -/
+structure ObsDef where
+  id : Nat
+  value : Nat
+  b0 : Option Nat
+  b1 : Option Nat
+
+def parseSyms (s : String) : Option (List ObsDef × List Nat) :=
+  if s = "-" ∨ s = "" then some ([], []) else
+  (s.splitOn ",").foldlM (init := (([], []) : List ObsDef × List Nat)) fun (ds, us) it =>
+    match it.toList with
+    | 'u' :: r => (String.ofList r).toNat?.map fun n => (ds, us ++ [n])
+    | '?' :: r => (String.ofList r).toNat?.map fun n => (ds ++ [{ id := 100000 + n, value := 0, b0 := none, b1 := none }], us)
+    | 'd' :: r =>
+      match (String.ofList r).splitOn "=" with
+      | [i, rest] =>
+        match rest.splitOn "/" with
+        | [v, b0, b1] => do
+          let i ← i.toNat?
+          let v ← v.toNat?
+          pure (ds ++ [{ id := i, value := v, b0 := b0.toNat?, b1 := b1.toNat? }], us)
+        | _ => none
+      | _ => none
+    | _ => none
+
+/-- the value a selected leaf gives to the symbol it defines: a label gets the address of the line's own code
+(`cp m` = `FE m`, otherwise the marker byte), EQU/SET the operand (the generated sources write the marker);
+a structure instantiation reserves space only (nothing to look at) -/
+def valueOK (l : Leaf) (o : ObsDef) : Bool :=
+  match l.kind with
+  | .instr => o.b0 == some 254 && o.b1 == some (l.marker % 256)
+  | .pseudo | .macro | .macroIntGlobal => o.b0 == some (l.marker % 256)
+  | .equ | .set => o.value == l.marker
+  | _ => true
+
 def handle (line : String) : String :=
   match words line with
   | stride :: crash :: dw :: obs :: toks =>
@@ -143,30 +204,36 @@ def handle (line : String) : String :=
     | some st, some cr, some dwn, some ss =>
       let cfg : Cfg := { ifbStride := st, elsecaseNullCrash := cr != 0, deadSwitchWarns := dwn != 0 }
       let m := endPass (run cfg init ss)
-      let mout := m.out.reverse
+      let mout := m.codes
       let merrs := m.errs.reverse
       let wn := decide (WellNested ss)
       let sk := toSkel ss
       let pred := s!"wn={if wn then 1 else 0} skel={if sk.isSome then 1 else 0} mout={hexNats mout} merrs={showNats merrs} mcrash={if m.crashed then 1 else 0} mstack={m.stack.length}"
       if obs = "-" then pred else
-      match obs.splitOn ";" with
-      | [oh, oe, ost] =>
-        match unhex oh, natList oe with
-        | some ob, some oerrs =>
+      match (match obs.splitOn ";" with | [a, b, c] => some (a, b, c, "-") | [a, b, c, d] => some (a, b, c, d) | _ => none) with
+      | some (oh, oe, ost, osy) =>
+        match unhex oh, natList oe, parseSyms osy with
+        | some ob, some oerrs, some (odefs, ouses) =>
+          let odset := toSet (odefs.map (·.id))
+          let ouset := toSet ouses
           let omark := ob.map UInt8.toNat
           let ocrash := ost = "sig"
           let meq :=
             if m.crashed then ocrash
             else !ocrash && omark == mout.map (· % 256) && oerrs == merrs && (ost == (if (hardErrs m).isEmpty then "0" else "2"))
+              && (!(hardErrs m).isEmpty || (odset == toSet m.defs && ouset == toSet m.uses))
           let ohard := oerrs.filter (· ≥ 1000)
           let owarn := (oerrs.filter (· == 100)).length
           let (spec, why) : String × String :=
             match sk with
             | some b =>
               if ocrash then ("bad", "crash")
-              else if omark != (selB b).map (· % 256) then ("bad", "markers")
+              else if omark != (codeOf (selB b)).map (· % 256) then ("bad", "markers")
               else if !ohard.isEmpty || ost != "0" then ("bad", "error-on-wellformed")
               else if owarn != warnB b || oerrs.length != owarn then ("bad", "warnings")
+              else if odset != toSet (definedBy (selB b)) then ("bad", "symbols")
+              else if !(odefs.all fun o => (selB b).any fun l => l.defines.contains o.id && valueOK l o) then ("bad", "label-value")
+              else if ouset != toSet (usedBy (selB b)) then ("bad", "used")
               else ("ok", "-")
             | none =>
               if !wn then
@@ -175,11 +242,12 @@ def handle (line : String) : String :=
                 else ("ok", "-")
               else ("na", "-")
           let (alt, altw) := match toSkel (ss.map relabel) with
-            | some b2 => (omark == (selB b2).map (· % 256), owarn == warnB b2)
+            | some b2 => (omark == (codeOf (selB b2)).map (· % 256), owarn == warnB b2)
             | none => (false, false)
+          let pred := pred ++ s!" mdefs={showNats (toSet m.defs)} muses={showNats (toSet m.uses)}"
           pred ++ s!" model={if meq then "eq" else "ne"} spec={spec} why={why} ifbsens={if ifbSensitive ss then 1 else 0} armless={match sk with | some b => armlessB b | none => 0} alt={if alt then "eq" else "ne"} altw={if altw then "eq" else "ne"}"
-        | _, _ => "bad-request"
-      | _ => "bad-request"
+        | _, _, _ => "bad-request"
+      | none => "bad-request"
     | _, _, _, _ => "bad-request"
   | _ => "bad-request"
 
